@@ -107,6 +107,9 @@ def generate(rnd, tier):
     n = 700 if tier == "quick" else 8000
     sid = SidCounter()
     cases = [gen_c07_none(rnd, sid) for _ in range(n // 20)] + [gen_c07(rnd) for _ in range(n)] + [gen_case(rnd, "tame", sid) for _ in range(n // 3)]
+    for c in cases:
+        # the application had an earlier life (App.initialize(), the same screen objects shown and answered once, quit) and starts over with App.initialize()
+        if rnd.random() < 0.15: c["prelife"] = True
     return [with_cc(c) for c in cases] + [gen_dialog(rnd) for _ in range(n // 2)]
 
 
